@@ -239,6 +239,9 @@ func judgeMsg(c c19case, limit int, msg string, reported bool, pan any) (key, de
 		if c.ReadErr && len(ex) > 0 {
 			return "render/excerpt-without-source", "excerpt rendered although the file is unreadable"
 		}
+		if !c.ReadErr && len(ex) > 0 {
+			return "render/excerpt-without-source/shorter-file", fmt.Sprintf("the file on disk has %d lines, the diagnostic is on line %d, yet an excerpt (without that line) is rendered: %s", len(c.DiskLines), c.Line, strconv.Quote(msg))
+		}
 		return "", ""
 	}
 	src := c.Lines[c.Line-1]
@@ -586,6 +589,9 @@ func checkC19(replay string) {
 		{Lines: []string{"package x", "a", "b", "c", "d", "e", "var g = 1", "h"}, Line: 7, Col: 5, DiskLines: []string{"package x", "a", "b", "c", "d"}},
 		{Lines: []string{"package x", "a", "b", "c", "d", "e", "var g = 1", "h"}, Line: 7, Col: 5, DiskLines: []string{}},
 		{Lines: []string{""}, Line: 1, Col: 1},
+		{Lines: []string{"package x", "a", "b", "c", "d", "e", "var g = 1", "h"}, Line: 7, Col: 5, DiskLines: []string{"package x", "a", "b", "c", "d", "e"}},
+		{Lines: []string{"package x", "a", "b", "c", "d", "e", "var g = 1", "h"}, Line: 8, Col: 1, DiskLines: []string{"package x", "a", "b", "c", "d", "e"}},
+		{Lines: []string{"package x", "a", "b", "c", "d", "e", "var g = 1", "h"}, Line: 8, Col: 1, DiskLines: []string{"package x", "a", "b", "c", "d", "e", "var g = 1"}},
 		{Lines: []string{strings.Repeat("x", 70000)}, Line: 1, Col: 65000},
 		{Lines: []string{"a", strings.Repeat("y", 200000), "b"}, Line: 2, Col: 1},
 		{Lines: []string{"a", strings.Repeat("y", 200000), "b"}, Line: 2, Col: 200000},
